@@ -610,30 +610,37 @@ def main():
             lines.append(sexp.dumps(H.encode(c, o)))
     else:
         lines = [sexp.dumps(H.encode(c)) for c in cases]
+    in_domain = getattr(H, "in_model_domain", None)
+    # cases outside the model's stated domain (documented in the harness) are not given to the model; the oracle still judges them
+    dom = [i for i in range(len(cases)) if in_domain is None or in_domain(cases[i])]
     if binp:
         t0 = time.time()
-        model_out = run_model(binp, lines, 1200)
+        part = run_model(binp, [lines[i] for i in dom], 2400)
+        model_out = ["OUTSIDE-MODEL-DOMAIN"] * len(cases)
+        for i, o in zip(dom, part):
+            model_out[i] = o
         model_wall = time.time() - t0
 
     mism = []
-    outside_domain = 0
-    in_domain = getattr(H, "in_model_domain", None)
+    outside_domain = len(cases) - len(dom)
     if model_out is not None:
-        for idx, (it, mo) in enumerate(zip(impl, model_out)):
-            if in_domain is not None and not in_domain(cases[idx]):
-                # the model states a precondition these cases do not meet (documented in the harness); the oracle still judges them
-                outside_domain += 1
+        silent = [i for i in dom if model_out[i].startswith("MODEL-")]
+        if silent:
+            # no answer is no disagreement: the run is incomplete, which is trouble with the machinery, not a finding
+            trouble.append("the extracted model gave no answer for %d cases (%s), first: %s" % (len(silent), model_out[silent[0]][:80], lines[silent[0]][:120]))
+        for idx in dom:
+            if model_out[idx].startswith("MODEL-"):
                 continue
-            if it[0] != mo:
+            if impl[idx][0] != model_out[idx]:
                 mism.append(idx)
     # 6. confirmation inside Coq: corpus + mismatches + random sample
     confirm_idx = []
     confirm_wall = 0.0
     coq_disagree = []
     if model_out is not None:
-        confirm_idx = list(range(n_corpus))[:40] + mism[:40]
+        confirm_idx = [i for i in list(range(n_corpus))[:40] if i in set(dom) and not model_out[i].startswith("MODEL-")] + mism[:40]
         rs = random.Random(seed + 1)
-        pool_idx = [i for i in range(len(cases)) if len(lines[i]) + len(model_out[i]) < 6000]
+        pool_idx = [i for i in dom if len(lines[i]) + len(model_out[i]) < 6000 and not model_out[i].startswith("MODEL-")]
         confirm_idx += rs.sample(pool_idx, min(len(pool_idx), 60 if tier == "quick" else 200))
         confirm_idx = sorted(set(confirm_idx))
         pairs = [(lines[i], model_out[i]) for i in confirm_idx]
